@@ -71,6 +71,7 @@ type simCfg struct {
 	mult     int
 	boost    float32
 	srvChunk int
+	freq     int // timeout update frequency (0 = default)
 }
 
 type sim struct {
@@ -170,6 +171,9 @@ func (s *sim) timeoutOpts() []gbn.TimeoutOptions {
 	}
 	if s.cfg.boost > 0 {
 		o = append(o, gbn.WithBoostPercent(s.cfg.boost))
+	}
+	if s.cfg.freq > 0 {
+		o = append(o, gbn.WithTimeoutUpdateFrequency(s.cfg.freq))
 	}
 	return o
 }
@@ -354,7 +358,13 @@ func (s *sim) send(x int, msg []byte) {
 	s.wg.Add(1)
 	go func() {
 		defer s.wg.Done()
-		err := s.conn[x].Send(msg)
+		// the caller's buffer: handed to Send and reused by the caller as soon as Send has returned (what an
+		// application that sends from one scratch buffer does); the harness keeps its own copy in sentMsgs
+		buf := append([]byte{}, msg...)
+		err := s.conn[x].Send(buf)
+		for i := range buf {
+			buf[i] = 0xEE
+		}
 		s.mu.Lock()
 		s.sendBusy[x] = false
 		s.sendOK[x][idx] = err == nil
